@@ -63,7 +63,7 @@ type ContractSet struct {
 var extraImports = map[string]map[string]string{}
 
 var clauseKW = map[string]bool{"let": true, "requires": true, "ensures": true, "invariant": true, "modifies": true,
-	"trusted": true, "pure": true, "inline": true, "opaque": true, "nopanic": true, "decreases": true, "axiom": true, "ownership": true, "decfull": true}
+	"trusted": true, "pure": true, "inline": true, "opaque": true, "nopanic": true, "decreases": true, "axiom": true, "ownership": true, "decfull": true, "abstract": true}
 
 var labelRe = regexp.MustCompile(`^([A-Za-z_][A-Za-z0-9_]*):\s+(.*)$`)
 
